@@ -18,7 +18,7 @@ def apply(data: bytes, x: dict) -> bytes:
     mode = x.get("mode", "gaps")
     out = []
     for n, b in pkgxform.read_members(data):
-        if _SLIDE.match(n) and mode in ("gaps", "high", "dups", "nonnumeric", "names", "mixed"):
+        if _SLIDE.match(n) and mode in ("gaps", "high", "dups", "nonnumeric", "names", "mixed", "foreign"):
             b = _mutate_slide(b, r, mode)
         elif n == "ppt/presentation.xml" and mode in ("slideids-max", "slideids-gaps", "mixed"):
             b = _mutate_pres(b, r, mode)
@@ -30,7 +30,7 @@ def _mutate_slide(blob: bytes, r: random.Random, mode: str) -> bytes:
     root = refpkg.parse(blob)
     cnv = [el for el in root.iter(P + "cNvPr")]
     shapes = cnv[1:]  # first is the spTree's own (id 1)
-    m = mode if mode != "mixed" else r.choice(["gaps", "high", "dups", "nonnumeric", "names"])
+    m = mode if mode != "mixed" else r.choice(["gaps", "high", "dups", "nonnumeric", "names", "foreign"])
     if m == "gaps":
         nxt = 2
         for el in shapes:
@@ -54,6 +54,23 @@ def _mutate_slide(blob: bytes, r: random.Random, mode: str) -> bytes:
             t.set("id", r.choice(["abc-123", "{GUID-1}", "rId7", "12x", "-5", "\u0661\u0662", "\u00b2"]))
             t2 = etree.SubElement(ext, "{urn:verif:x}thing")
             t2.set("id", str(r.choice([50, 99, 7])))
+    elif m == "foreign":
+        # ids carried by elements that are not shapes: an animation timing tree (p:cTn/@id) as PowerPoint writes it, numbered
+        # just above (or interleaved with) the shape ids
+        if root.tag == P + "sld" and root.find(P + "timing") is None:
+            top = max([int(e.get("id")) for e in cnv if (e.get("id") or "").isdigit()] or [1])
+            k = top + r.choice([0, 1, 1, 2, 5])
+            timing = etree.Element(P + "timing")
+            par = etree.SubElement(etree.SubElement(timing, P + "tnLst"), P + "par")
+            ctn = etree.SubElement(par, P + "cTn")
+            ctn.set("id", str(k + 1)); ctn.set("dur", "indefinite"); ctn.set("restart", "never"); ctn.set("nodeType", "tmRoot")
+            if r.random() < 0.6:
+                ch = etree.SubElement(ctn, P + "childTnLst")
+                for j in range(r.choice([1, 2, 3])):
+                    c2 = etree.SubElement(etree.SubElement(ch, P + "par"), P + "cTn")
+                    c2.set("id", str(k + 2 + j)); c2.set("fill", "hold")
+            after = [e for e in root if isinstance(e.tag, str) and e.tag in (P + "cSld", P + "clrMapOvr", P + "transition")]
+            after[-1].addnext(timing)
     elif m == "names":
         for el in shapes:
             el.set("name", r.choice(["Dup", "Dup", "TextBox 1", "Title 1", ""]))
